@@ -861,3 +861,31 @@ Proof. intros Hok Hd. rewrite <- path_clos. exact (subcls_iff_path g c d Hok Hd)
 
 Lemma path_length_sound g a b d : sp g a b = Some d -> subcls g b a = true.
 Proof. intro H. unfold subcls. rewrite H. reflexivity. Qed.
+
+(* ------------------------------------------------------------------------------------------ *)
+(* I. the set-valued queries are determined by is_subclass *)
+Lemma subclasses_in_spec g u c d : In d (subclasses_in g u c) <-> In d u /\ subcls g d c = true.
+Proof. unfold subclasses_in. apply (filter_In (fun x => subcls g x c)). Qed.
+
+Lemma superclasses_in_spec g u c d : In d (superclasses_in g u c) <-> In d u /\ subcls g c d = true.
+Proof. unfold superclasses_in. apply (filter_In (fun x => subcls g c x)). Qed.
+
+Lemma outside_in_spec g u ks d :
+  In d (outside_in g u ks) <-> In d u /\ forall k, In k ks -> subcls g d k = false.
+Proof.
+  unfold outside_in. rewrite filter_In. split; intros [Hu H]; split; try exact Hu.
+  - intros k Hk. apply negb_true_iff in H. destruct (subcls g d k) eqn:E; [|reflexivity].
+    assert (X : existsb (fun k0 => subcls g d k0) ks = true) by (apply existsb_exists; exists k; auto).
+    congruence.
+  - apply negb_true_iff. destruct (existsb (fun k => subcls g d k) ks) eqn:E; [|reflexivity].
+    apply existsb_exists in E. destruct E as [k [Hk E]]. rewrite (H k Hk) in E. discriminate.
+Qed.
+
+(* a class outside of ks is no subclass of the first of them - in particular asking for the classes
+   outside of several hierarchies says nothing new about the first one *)
+Lemma outside_disjoint g u ks k d :
+  In k ks -> In d (outside_in g u ks) -> ~ In d (subclasses_in g u k).
+Proof.
+  intros Hk Ho Hs. apply outside_in_spec in Ho. apply subclasses_in_spec in Hs.
+  destruct Ho as [_ Ho]. destruct Hs as [_ Hs]. rewrite (Ho k Hk) in Hs. discriminate.
+Qed.
